@@ -71,3 +71,26 @@ impl Compiler {
             r is Some ==> *r->Some_0 == ProcessingBody::Loop(innermost_loop(self.processing_bodies@, self.processing_bodies@.len() as int)->Some_0)
     { unimplemented!() }
 }
+/// the instruction an operator compiles to (the documented operator table: `*` Mul, `/` Div, `%` Mod, `+` Plus, `-` Minus,
+/// `//` FloorDiv, `**` Power, `<` `>` `<=` `>=` `==` `!=`, `~` StrConcat, `in` In)
+pub open spec fn bin_instr(op: BinaryOperator) -> Instruction {
+    match op {
+        BinaryOperator::Mul => Instruction::Mul, BinaryOperator::Div => Instruction::Div, BinaryOperator::Mod => Instruction::Mod,
+        BinaryOperator::Plus => Instruction::Plus, BinaryOperator::Minus => Instruction::Minus, BinaryOperator::FloorDiv => Instruction::FloorDiv,
+        BinaryOperator::Power => Instruction::Power, BinaryOperator::LessThan => Instruction::LessThan, BinaryOperator::GreaterThan => Instruction::GreaterThan,
+        BinaryOperator::LessThanOrEqual => Instruction::LessThanOrEqual, BinaryOperator::GreaterThanOrEqual => Instruction::GreaterThanOrEqual,
+        BinaryOperator::Equal => Instruction::Equal, BinaryOperator::NotEqual => Instruction::NotEqual,
+        BinaryOperator::StrConcat => Instruction::StrConcat, BinaryOperator::In => Instruction::In,
+        _ => Instruction::Not,
+    }
+}
+/// `a and b` / `a or b`: after `a`, at j, a conditional jump that keeps `a` and lands right after `b` (the end)
+pub open spec fn short_circuit_shape(n0: int, ins: Ins, is_and: bool, j: int) -> bool {
+    n0 <= j < ins.len() && ins[j].0 == (if is_and { Instruction::JumpIfFalseOrPop(ins.len() as usize) } else { Instruction::JumpIfTrueOrPop(ins.len() as usize) })
+}
+pub proof fn lemma_prefix_index(a: Ins, b: Ins, i: int)
+    requires prefix_of(a, b), 0 <= i < a.len()
+    ensures b[i] == a[i]
+{
+    assert(b.take(a.len() as int)[i] == b[i]);
+}
